@@ -15,6 +15,15 @@ variable {α : Type} [Inhabited α]
 /-- all extents are ≥ 1 (the property quantifies over such shapes) -/
 abbrev Pos := Proofs.Pos
 
+-- concrete tensors shared by the non-vacuity examples below: a 2×1 column and a 1×3 row (each stretched
+-- along one axis) with their broadcast images, a 2×3 matrix and a row of 3
+private def nv_A : Tensor Int := ⟨[2, 1], [1, 2]⟩
+private def nv_B : Tensor Int := ⟨[1, 3], [10, 20, 30]⟩
+private def nv_A' : Tensor Int := ⟨[2, 3], [1, 1, 1, 2, 2, 2]⟩
+private def nv_B' : Tensor Int := ⟨[2, 3], [10, 20, 30, 10, 20, 30]⟩
+private def nv_M : Tensor Int := ⟨[2, 3], [1, 2, 3, 4, 5, 6]⟩
+private def nv_v : Tensor Int := ⟨[3], [10, 20, 30]⟩
+
 /-- Two shapes broadcast iff, aligned at their last axes, every pair of extents is equal or
 contains a 1; otherwise an error (never a panic, never a tensor). -/
 theorem multidir_ok_iff (A B : Tensor α) :
@@ -25,11 +34,19 @@ theorem multidir_error (A B : Tensor α) (h : Compatible A.shape B.shape = false
     multidirBroadcast A B = .error .broadcast :=
   Proofs.multidir_error A B h
 
+-- non-vacuity: 2×3 against 2×2
+example : multidirBroadcast nv_M (⟨[2, 2], [1, 2, 3, 4]⟩ : Tensor Int) = .error .broadcast :=
+  multidir_error nv_M ⟨[2, 2], [1, 2, 3, 4]⟩ (by decide)
+
 /-- both results have the elementwise-maximum shape -/
 theorem multidir_shape (A B A' B' : Tensor α) (hA : Pos A.shape) (hB : Pos B.shape)
     (h : multidirBroadcast A B = .ok (A', B')) :
     A'.shape = bshape A.shape B.shape ∧ B'.shape = bshape A.shape B.shape :=
   Proofs.multidir_shape A B A' B' hA hB h
+
+-- non-vacuity: the column and the row broadcast to 2×3
+example : nv_A'.shape = bshape nv_A.shape nv_B.shape ∧ nv_B'.shape = bshape nv_A.shape nv_B.shape :=
+  multidir_shape nv_A nv_B nv_A' nv_B' (by simp [Proofs.Pos, nv_A]) (by simp [Proofs.Pos, nv_B]) (by decide)
 
 /-- the element at every index equals the source element at that index with stretched axes
 pinned to 0 -/
@@ -39,28 +56,49 @@ theorem multidir_get (A B A' B' : Tensor α) (hA : Pos A.shape) (hB : Pos B.shap
     A'.get idx = A.get (pin A.shape idx) ∧ B'.get idx = B.get (pin B.shape idx) :=
   Proofs.multidir_get A B A' B' hA hB h idx hidx
 
+-- non-vacuity: the same pair, read at [1, 2]
+example : nv_A'.get [1, 2] = nv_A.get (pin nv_A.shape [1, 2]) ∧ nv_B'.get [1, 2] = nv_B.get (pin nv_B.shape [1, 2]) :=
+  multidir_get nv_A nv_B nv_A' nv_B' (by simp [Proofs.Pos, nv_A]) (by simp [Proofs.Pos, nv_B]) (by decide) [1, 2] (by decide)
+
 /-- results are dense: data length = number of elements of the shape -/
 theorem multidir_WF (A B A' B' : Tensor α) (hA : A.WF) (hB : B.WF)
     (h : multidirBroadcast A B = .ok (A', B')) : A'.WF ∧ B'.WF :=
   Proofs.multidir_WF A B A' B' hA hB h
+
+-- non-vacuity
+example : nv_A'.WF ∧ nv_B'.WF := multidir_WF nv_A nv_B nv_A' nv_B' rfl rfl (by decide)
 
 /-- Unidirectional broadcasting additionally requires the result shape to be the first operand's -/
 theorem unidir_ok_iff (A B : Tensor α) (hA : Pos A.shape) (hB : Pos B.shape) :
     (unidirBroadcast A B).isOk = (Compatible A.shape B.shape && (bshape A.shape B.shape == A.shape)) :=
   Proofs.unidir_ok_iff A B hA hB
 
+-- non-vacuity: a row of 3 against a 2×3 matrix
+example : (unidirBroadcast nv_M nv_v).isOk = (Compatible nv_M.shape nv_v.shape && (bshape nv_M.shape nv_v.shape == nv_M.shape)) :=
+  unidir_ok_iff nv_M nv_v (by simp [Proofs.Pos, nv_M]) (by simp [Proofs.Pos, nv_v])
+
 /-- … and leaves the first operand as is -/
 theorem unidir_fst (A B A' B' : Tensor α) (h : unidirBroadcast A B = .ok (A', B')) : A' = A :=
   Proofs.unidir_fst A B A' B' h
+
+-- non-vacuity: the hypothesis `h` holds for the row against the matrix
+example : nv_M = nv_M := unidir_fst nv_M nv_v nv_M nv_B' (by decide)
 
 theorem unidir_get (A B A' B' : Tensor α) (hA : Pos A.shape) (hB : Pos B.shape)
     (h : unidirBroadcast A B = .ok (A', B')) :
     B'.shape = A.shape ∧ ∀ idx, InRange idx A.shape → B'.get idx = B.get (pin B.shape idx) :=
   Proofs.unidir_get A B A' B' hA hB h
 
+-- non-vacuity
+example : nv_B'.shape = nv_M.shape ∧ ∀ idx, InRange idx nv_M.shape → nv_B'.get idx = nv_v.get (pin nv_v.shape idx) :=
+  unidir_get nv_M nv_v nv_M nv_B' (by simp [Proofs.Pos, nv_M]) (by simp [Proofs.Pos, nv_v]) (by decide)
+
 /-- every failure of the helpers is the broadcast error — in particular never a panic -/
 theorem unidir_error (A B : Tensor α) (e : Err) (h : unidirBroadcast A B = .error e) : e = .broadcast :=
   Proofs.unidir_error A B e h
+
+-- non-vacuity: the matrix cannot be broadcast to the row
+example : Err.broadcast = .broadcast := unidir_error nv_v nv_M .broadcast (by decide)
 
 -- non-vacuity: a concrete compatible pair with a stretched axis on each side
 example : Compatible [2, 1, 3] [4, 1] = true ∧ bshape [2, 1, 3] [4, 1] = [2, 4, 3] ∧
